@@ -290,7 +290,7 @@ func (fr *Frame) execInvoke(st *State, cc *ssa.CallCommon, args []Val, pos token
 }
 
 func (fr *Frame) execInvoke0(st *State, cc *ssa.CallCommon, args []Val, pos token.Pos) []Val {
-	recvT := cc.Value.Type()
+	recvT := types.Unalias(cc.Value.Type())
 	m := cc.Method
 	key := ""
 	if n, ok := recvT.(*types.Named); ok && n.Obj().Pkg() != nil {
